@@ -38,8 +38,14 @@ def twins(u):
 
 def compare(acc, case, args, u):
     o = observe(u)
-    for kind, t in twins(u):
-        ot = observe(t)
+    again = observe(u)
+    if again != o:
+        d = diff(o, again)
+        acc.viol(case, args, observed={"twin": "same object, second reading", "diff": [[n, a, b] for n, a, b in d][:8]}, expected="identical observations",
+                 msg="%s%r: reading the accessors a second time gives different results: %r" % (case, tuple(args)[:3], d[:4]))
+        return False
+    for kind, t in twins(u) + [("pickle, accessors read in reverse order", pickle.loads(pickle.dumps(u)))]:
+        ot = observe(t, reverse=kind.endswith("reverse order"))
         d = diff(o, ot)
         probs = []
         if d:
